@@ -87,7 +87,7 @@ func (m *Type) Clone(reuse *Type) *Type {
 	}
 
 	if len(m.fp) < 2 {
-		return &Type{sp: 0, fp: newFP, global: m.global, closure: m.closure, stack: newStack}
+		return &Type{sp: 0, fp: newFP, global: m.global, closure: m.closure[:len(m.closure):len(m.closure)], stack: newStack}
 	}
 
 	fp := m.fp[len(m.fp)+localFP]
@@ -100,12 +100,12 @@ func (m *Type) Clone(reuse *Type) *Type {
 		reuse.sp = m.sp - fp
 		reuse.fp = newFP
 		reuse.global = m.global
-		reuse.closure = m.closure
+		reuse.closure = m.closure[:len(m.closure):len(m.closure)]
 		reuse.stack = newStack
 		return reuse
 	}
 
-	return &Type{sp: m.sp - fp, fp: newFP, global: m.global, closure: m.closure, stack: newStack}
+	return &Type{sp: m.sp - fp, fp: newFP, global: m.global, closure: m.closure[:len(m.closure):len(m.closure)], stack: newStack}
 }
 
 // CallDepth is the number of call frames.
